@@ -3,7 +3,8 @@
    tools/selftest.py <Cnn> [mutant-name ...] [--tier quick]
 A mutant is mutants/<Cnn>/<name>.json:
    {"file": "<path relative to /repo>", "edits": [{"old": "...", "new": "..."}], "note": "...", "expect": "VIOLATION"}
-(several files: "files": [{"file":..., "edits":[...]}]).  The mutated copy is passed to `go build -overlay`
+(several files: "files": [{"file":..., "edits":[...]}]; or a unified diff: "patch": "<path relative to /verif>", used for the
+seeded changes of seeded/<id>/patch.diff, see mutants/<Cnn>/seed_*.json).  The mutated copy is passed to `go build -overlay`
 through VERIF_OVERLAY; evidence is not rewritten (VERIF_NO_EVIDENCE)."""
 import json, os, subprocess, sys, tempfile, shutil
 V = os.path.dirname(os.path.dirname(os.path.abspath(__file__)))
@@ -28,7 +29,22 @@ def main():
         tmp = tempfile.mkdtemp(prefix="verif_mut_")
         try:
             repl = {}
-            for k, fe in enumerate(m.get("files") or [m]):
+            if m.get("patch"):
+                # a unified diff against /repo (e.g. a seeded change): applied to copies of the touched files
+                pf = os.path.join(V, m["patch"])
+                tree = os.path.join(tmp, "tree")
+                for line in open(pf):
+                    if line.startswith("+++ b/"):
+                        rel = line[6:].strip()
+                        dst = os.path.join(tree, rel)
+                        os.makedirs(os.path.dirname(dst), exist_ok=True)
+                        if os.path.exists(os.path.join(REPO, rel)):
+                            shutil.copy(os.path.join(REPO, rel), dst)
+                        repl[os.path.join(REPO, rel)] = dst
+                pr = subprocess.run(["patch", "-p1", "-s", "-d", tree, "-i", pf], stdout=subprocess.PIPE, stderr=subprocess.STDOUT, text=True)
+                if pr.returncode != 0:
+                    raise SystemExit("mutant %s: patch does not apply: %s" % (name, pr.stdout[-300:]))
+            for k, fe in enumerate([] if m.get("patch") else (m.get("files") or [m])):
                 src = os.path.join(REPO, fe["file"])
                 txt = open(src).read()
                 for e in fe["edits"]:
